@@ -851,7 +851,7 @@ class Emitter:
         txt = self.loop_contracts.get(key, '')
         if txt: self.used_loop_contracts.add(key)
         # (-DY_NO_LOOP_CONTRACTS: the fallback decision of check.py re-decides the function contract by complete unwinding)
-        return ('#ifndef Y_NO_LOOP_CONTRACTS\n' + ''.join('  ' * ind + l.strip() + '\n' for l in txt.strip().splitlines()) + '#endif\n') if txt else ''
+        return (f'#if !defined(Y_NO_LOOP_CONTRACTS) && !defined(Y_NO_LOOP_CONTRACTS_{self.cur_name})\n' + ''.join('  ' * ind + l.strip() + '\n' for l in txt.strip().splitlines()) + '#endif\n') if txt else ''
 
     def st_ForStmt(self, n, ind):
         p = '  ' * ind; c = n['inner']
